@@ -241,6 +241,35 @@ func genC12(e *emitter, r *rng, tier string) {
 		}
 	}
 	e.count("C12.optionshapes")
+	// small prints through the DEFAULT buffer (no buffer-size option at all): every fault point
+	for _, pos := range []string{"r0~1", "r0~20", "r0~64", "r3~9,r30~41", "a0"} {
+		for _, o := range []string{"-", "R10.C5", "R0", "S0.C0"} {
+			for v := 1; v <= 3; v++ {
+				var stmts []string
+				for k := 0; k <= 100; k++ {
+					stmts = append(stmts, fmt.Sprintf("fpr:0:%s:%s:%d:%d", pos, o, (k+v)%3, k))
+					if len(stmts) == 40 {
+						emitScriptLine(e, v, "G:-1:1:0", strings.Join(stmts, ";"))
+						stmts = stmts[:0]
+					}
+				}
+				if len(stmts) > 0 {
+					emitScriptLine(e, v, "G:-1:1:0", strings.Join(stmts, ";"))
+				}
+			}
+		}
+	}
+	e.count("C12.small_prints_default_buffer")
+	// one long line (rows switched off) through the default buffer: the fault must still stop the
+	// feeding loop within a buffer's worth of digits
+	for i := 0; i < 6; i++ {
+		o := r.pickS([]string{"R0", "R0.C3", "R-1.C5.S0", "R0.B0"})
+		k := r.pick([]int{0, 10, 1000, 5000})
+		for v := 1; v <= 3; v++ {
+			emitScriptLine(e, v, "G:-1:1:0", fmt.Sprintf("cons;fpr:0:r0~4990:%s:%d:%d;cons", o, r.intn(3), k))
+		}
+	}
+	e.count("C12.prompt.single_line")
 	// digits pulled after the fault: counting source, fault early in a long output
 	for i := 0; i < 30; i++ {
 		k := r.pick([]int{0, 1, 10, 100, 500})
